@@ -524,7 +524,15 @@ func cmdBaseline(args []string) {
 			out[name] = baselineEntry{Required: req}
 		}
 	}
+	locals := map[string][]localDecl{}
+	for name := range eng.cf.Funcs {
+		if fn, ok := eng.funcs[name]; ok {
+			locals[name] = functionLocals(fn)
+		}
+	}
 	_ = os.MkdirAll(filepath.Join(root, "baseline"), 0755)
+	ldata, _ := json.MarshalIndent(locals, "", " ")
+	_ = os.WriteFile(filepath.Join(root, "baseline", "locals.json"), ldata, 0644)
 	data, _ := json.MarshalIndent(out, "", " ")
 	_ = os.WriteFile(filepath.Join(root, "baseline", "obligations.json"), data, 0644)
 	fmt.Printf("baseline: %d functions\n", len(out))
